@@ -53,14 +53,52 @@ def expandFields (sty decl : Nat) : List (String × Nat) → List PSpec → SupM
                           fieldName := fname, decl := decl }
       expandFields sty decl fs (provs ++ [fp]) (m ++ [(fty, (provs.length, 0))])
 
-def pass2 : List PSpec → List PSpec → SupMap → Except PlanErr (List PSpec × SupMap)
+/-- struct expansion as it was before the repair of the order defect (`Struct` providers strictly in declaration
+    order, `orphan` as soon as one has no supplier yet).  No longer used by `newGraph`; kept as a reference:
+    `pass2_old_ok` (`KV/StructRounds.lean`) says the repaired `pass2` returns the same result whenever this one
+    accepts, and every run of `pass2` is a run of this function on a reordering (`pass2_cases`). -/
+def pass2Ordered : List PSpec → List PSpec → SupMap → Except PlanErr (List PSpec × SupMap)
   | [], provs, m => pure (provs, m)
   | sp :: sps, provs, m =>
     match m.lookup sp.structTy with
     | none => throw (.orphan sp.structTy)
     | some _ => do
       let (provs', m') ← expandFields sp.structTy sp.decl sp.fields provs m
-      pass2 sps provs' m'
+      pass2Ordered sps provs' m'
+
+/-- one round over the pending struct providers, in order: a provider whose struct type has a supplier *now*
+    (possibly a field expanded earlier in this very round) is expanded, the others are deferred.
+    Result: provider list, supplier map, deferred providers (in pending order). -/
+def pass2Round : List PSpec → List PSpec → SupMap → Except PlanErr (List PSpec × SupMap × List PSpec)
+  | [], provs, m => .ok (provs, m, [])
+  | sp :: sps, provs, m =>
+    match m.lookup sp.structTy with
+    | none =>
+      match pass2Round sps provs m with
+      | .error e => .error e
+      | .ok (provs', m', deferred) => .ok (provs', m', sp :: deferred)
+    | some _ =>
+      match expandFields sp.structTy sp.decl sp.fields provs m with
+      | .error e => .error e
+      | .ok (provs', m') => pass2Round sps provs' m'
+
+/-- rounds until nothing is pending or a round makes no progress (`orphan` of the first deferred provider).
+    Every round with progress shortens the pending list, so fuel ≥ its length is never exhausted
+    (`pass2Rounds_fuel`); the `0` case only makes the function total. -/
+def pass2Rounds : Nat → List PSpec → List PSpec → SupMap → Except PlanErr (List PSpec × SupMap)
+  | _, [], provs, m => .ok (provs, m)
+  | 0, sp :: _, _, _ => .error (.orphan sp.structTy)
+  | fuel + 1, sp :: sps, provs, m =>
+    match pass2Round (sp :: sps) provs m with
+    | .error e => .error e
+    | .ok (provs', m', deferred) =>
+      if deferred.length = (sp :: sps).length then .error (.orphan (deferred.headD sp).structTy)
+      else pass2Rounds fuel deferred provs' m'
+
+/-- struct expansion (repaired): fixpoint iteration over the `Struct` providers, so that a struct whose value is a
+    field of another expanded struct is expanded whatever the declaration order -/
+def pass2 (sps : List PSpec) (provs : List PSpec) (m : SupMap) : Except PlanErr (List PSpec × SupMap) :=
+  pass2Rounds (sps.length + 1) sps provs m
 
 /-! ## NewGraph, BFS -/
 
